@@ -26,8 +26,34 @@ def run(chk):
             fails.setdefault(key, (k, msg))
     chk.coverage["property_oracle"] = {"histories": n_checked, "failing_keys": sorted(fails.keys())}
     found = tc.report_oracle_failures(chk, "C01", data, fails, lambda key: tc.ledger_fails("C01", key))
+    # the link to the verified voting model (C02), executed: tracker model with assign_solver vs the implementation
+    try:
+        link, bad = tc.assign_link(data, 40 if chk.tier == "quick" else 300)
+    except RuntimeError as e:
+        link, bad = {"error": str(e)[-800:]}, []
+        chk.broken.append("assign-link evaluation failed: " + str(e)[-400:])
+    chk.coverage["assign_link"] = link
+    if bad and not found:
+        k, d = bad[0]
+        chk.violation("C01:assign-link", "the tracker model run with the voting-model solver (padded matrix + optimum + decode) "
+                      "differs from the implementation on a history with unique optima: " + d[:600],
+                      tc.replay_obj(data["hists"][k], d[:1500]), found_input=False)
+        found = True
     tc.report_correspondence(chk, "C01", data, found)
+    # the same output contract on the VISUAL trackers (VisualSort, BatchVisualSort): oracle applied directly to the
+    # implementation's records, ties included (tools/props/visual_c01.py)
+    try:
+        from props import visual_c01
+        visual_c01.c01_visual_stage(chk)
+    except Exception:
+        import traceback
+        chk.violation("C01:visual-stage-error", "the VisualSort stage of the C01 check failed to run",
+                      {"error": traceback.format_exc()[-3000:]}, found_input=False)
 
 
 def replay(chk, path):
+    from props import visual_c01
+    r = visual_c01.c01_visual_replay(chk, path)
+    if r is not None:
+        return r
     return tc.generic_replay(chk, path, "C01")
